@@ -1,7 +1,7 @@
 """C07 driver: ask every table-driven decoder about the same bytes."""
 import random
 
-from . import simdrv
+from . import simdrv, z80len
 
 OPTSETS = ([], ['ED63'], ['ED6B'], ['ED70'], ['ED71'], ['IM'], ['NEG'], ['RETN'], ['XYCB'],
            ['ED63', 'ED6B', 'ED70', 'ED71', 'IM', 'NEG', 'RETN', 'XYCB'])
@@ -55,6 +55,9 @@ def gen_cases(args):
             while len(ins) < 4:
                 ins.append(simdrv.r8(rnd))
             pc = 0x8000 if v % 3 == 0 else rnd.choice((0x0000, 0x3FFE, 0x7FFF, 0xC000, 0xFF00, 0xFFF0, 0xFFFB))
+            if v % 3 == 1:
+                # the instruction's last byte is the last byte of memory
+                pc = 65536 - z80len.length(ins + [0, 0], 0)
             ov = [[(pc + k) % 65536, b] for k, b in enumerate(ins)]
             for a, b in ov:
                 mem[a] = b
